@@ -10,8 +10,9 @@ from dataclasses import dataclass, field, asdict
 from typing import Any, Dict, Iterable, List, Optional
 
 VERIF = os.path.dirname(os.path.dirname(os.path.abspath(__file__)))
-EVIDENCE_DIR = os.path.join(VERIF, "evidence")
-REPLAY_DIR = os.path.join(VERIF, "replays")
+_OUT = os.environ.get("VERIF_OUT_DIR") or VERIF  # the self-test redirects evidence/replays of scratch runs
+EVIDENCE_DIR = os.path.join(_OUT, "evidence")
+REPLAY_DIR = os.path.join(_OUT, "replays")
 KNOWN_FILE = os.path.join(VERIF, "known_findings.json")
 
 OK = "OK"
